@@ -90,7 +90,8 @@ def exec_shard():
 def launch(spec, timeout):
     cmd = [sys.executable, '-B', '-m', 'vlib.runner', '--exec-shard']
     try:
-        r = subprocess.run(cmd, input=json.dumps(spec), capture_output=True, text=True, timeout=timeout, cwd=env.VERIF)
+        r = subprocess.run(cmd, input=json.dumps(spec), capture_output=True, text=True, timeout=timeout, cwd=env.VERIF,
+                           env=dict(os.environ, PYTHONHASHSEED=str(spec.get('hashseed', 0))))
     except subprocess.TimeoutExpired:
         return {'spec': spec, 'error': 'shard subprocess timeout %ss' % timeout, 'timeout': True}
     for line in reversed(r.stdout.splitlines()):
@@ -132,6 +133,9 @@ def main(argv=None):
     for i, s in enumerate(specs):
         s.update(prop=pid, tier=a.tier, seed=a.seed, shard=i)
         s.setdefault('watchdog', 240 if a.tier == 'quick' else 3000)
+        # the upper half of the shards runs under a different string-hash seed each (set / dict-of-set iteration orders inside the library differ);
+        # recorded with every violation so that a replay runs under the same one
+        s.setdefault('hashseed', 0 if i < (len(specs) + 1) // 2 else i + 100 * a.seed)
     timeout = 300 if a.tier == 'quick' else 3600
     with ThreadPoolExecutor(max_workers=ncpu) as ex:
         results = list(ex.map(lambda s: launch(s, timeout), specs))
@@ -149,6 +153,8 @@ def main(argv=None):
         for s in r['samples']:
             if len(samples) < 4:
                 samples.append(s)
+        for v_ in r['violations']:
+            v_['hashseed'] = r['spec'].get('hashseed', 0)
         violations.extend(r['violations'])
         inconclusive.extend(r['inconclusive'])
         herrors.extend(r['harness_errors'])
@@ -237,6 +243,11 @@ def write_evidence(prop, a, cases, nontrivial, samples, monitors, classes, extra
 def replay(a):
     v = json.load(open(a.replay))
     pid = a.prop or v.get('prop')
+    hs = str(v.get('hashseed', 0))
+    if os.environ.get('PYTHONHASHSEED') != hs:
+        # same string-hash seed as the shard that found it
+        r = subprocess.run([sys.executable, '-B', '-m', 'vlib.runner'] + sys.argv[1:], env=dict(os.environ, PYTHONHASHSEED=hs), cwd=env.VERIF)
+        return r.returncode
     env.import_repo()
     prop = load_prop(pid)
     ctx = core.Ctx(pid, 'quick', v.get('seed', 0), v.get('shard', 0))
